@@ -138,19 +138,24 @@ RECURSIVE Inflate(_, _)
 Inflate(z, at) == LET fin == z[at]   n == z[at + 1] + 256 * z[at + 2] IN
                   SubSeq(z, at + 5, at + 4 + n) \o (IF fin = 1 THEN <<>> ELSE Inflate(z, at + 5 + n))
 Payload(n) == [i \in 1..n |-> (i * i + 3 * i) % 251]
-DataKinds == {"raw", "nobits", "zlib", "zlib_badsize", "zlib_badtype"}
+DataKinds == {"raw", "nobits", "zlib", "zlib_badsize", "zlib_badtype", "zlib_twin"}
+Payload2(n) == [i \in 1..n |-> (7 * i + 11) % 253]
 ChdrRec(t, size, align) == [ch_type |-> N(t), ch_reserved |-> Z, ch_size |-> N(size), ch_addralign |-> N(align)]
 DataSec(kind, n, cls, le, blk) ==
   LET p == Payload(n) IN
   CASE kind = "raw" -> Sec(Dot(<<100>>), N(1), N(2), N(64), p, N(n), Z, Z, N(16), Z)
     [] kind = "nobits" -> Sec(Dot(<<100>>), N(8), N(3), N(64), <<>>, N(n), Z, Z, N(16), Z)
     [] OTHER -> LET ch == Ser(ChdrF(cls), ChdrRec(IF kind = "zlib_badtype" THEN 2 ELSE 1, IF kind = "zlib_badsize" THEN n + 1 ELSE n, 32), cls, le)
-                    z == ch \o Stored(p, blk)
+                    z == ch \o Stored(IF kind = "twin2" THEN Payload2(n) ELSE p, blk)
                 IN Sec(Dot(<<100>>), N(1), N(2048), Z, z, N(Len(z)), Z, Z, N(1), Z)
 DataImage(cl, kind, n, blk) ==
-  [Base(cl) EXCEPT !.secs = <<Sec(Dot(<<112>>), N(1), Z, Z, <<1, 2, 3>>, N(3), Z, Z, N(1), Z), DataSec(kind, n, cl[1], cl[2], blk)>>,
-                   \* segments: one over the data section's file extent (offset fixed up at emission), an interpreter path
-                   !.segs = <<Seg(N(1), N(4), Z, N(4096), N(4096), Z, Z, N(1)), Seg(N(3), N(4), Z, Z, Z, Z, Z, N(1))>>]
+  [Base(cl) EXCEPT !.secs = <<Sec(Dot(<<112>>), N(1), Z, Z, <<1, 2, 3>>, N(3), Z, Z, N(1), Z), DataSec(kind, n, cl[1], cl[2], blk)>>
+                                \* a second compressed section with the SAME name and a different payload
+                                \o (IF kind = "zlib_twin" THEN <<DataSec("twin2", n, cl[1], cl[2], blk)>> ELSE <<>>),
+                   \* segments: one over the data section's file extent (offsets fixed up at emission), an interpreter path, and two
+                   \* non-loadable ones: exactly the section's file bytes / only as many bytes as the logical (uncompressed) size
+                   !.segs = <<Seg(N(1), N(4), Z, N(4096), N(4096), Z, Z, N(1)), Seg(N(3), N(4), Z, Z, Z, Z, Z, N(1)),
+                              Seg(N(0), N(4), Z, Z, Z, Z, Z, N(1)), Seg(N(0), N(4), Z, Z, Z, Z, Z, N(1))>>]
 Sizes == {0, 1, 63, 64, 65, 300, 4096}
 InterpStr == <<47, 108, 105, 98, 47, 108, 100, 46, 115, 111, 0>>                 \* "/lib/ld.so"
 
@@ -195,13 +200,21 @@ Case ==
              im1 == [im0 EXCEPT !.secs[1].data = InterpStr, !.secs[1].size = N(Len(InterpStr))]
              off2 == SecOff(im1, 2)
              im == [im1 EXCEPT !.segs[1].offset = N(off2), !.segs[1].filesz = N(dlen), !.segs[1].memsz = N(dlen),
-                               !.segs[2].offset = N(SecOff(im1, 1)), !.segs[2].filesz = N(Len(InterpStr)), !.segs[2].memsz = N(Len(InterpStr))]
+                               !.segs[2].offset = N(SecOff(im1, 1)), !.segs[2].filesz = N(Len(InterpStr)), !.segs[2].memsz = N(Len(InterpStr)),
+                               !.segs[3].offset = N(off2), !.segs[3].filesz = N(dlen), !.segs[3].memsz = N(dlen), !.segs[3].vaddr = N(64),
+                               !.segs[4].offset = N(off2), !.segs[4].filesz = N(obj.n), !.segs[4].memsz = N(obj.n), !.segs[4].vaddr = N(64)]
+             \* containment of the data section (by its header: sh_offset, sh_size; not ALLOC, not TLS) in segments 3 and 4
+             geo(fs) == InSegStrict([tls |-> FALSE, alloc |-> obj.kind \in {"raw", "nobits"}, nobits |-> obj.kind = "nobits", off |-> off2, addr |-> 64,
+                                     size |-> IF obj.kind = "nobits" THEN obj.n ELSE dlen],
+                                    [type |-> N(0), off |-> off2, vaddr |-> 64, filesz |-> fs, memsz |-> fs])
          IN [mode |-> mode, kind |-> obj.kind, chunks |-> Chunks(im), secidx |-> UserIndex(im, 2),
              payload |-> IF obj.kind = "nobits" THEN Rep(0, obj.n) ELSE Payload(obj.n),
              data_size |-> IF obj.kind = "zlib_badsize" THEN obj.n + 1 ELSE obj.n,
              data_align |-> IF obj.kind \in {"raw", "nobits"} THEN 16 ELSE 32,
              compressed |-> obj.kind \notin {"raw", "nobits"},
              error |-> obj.kind \in {"zlib_badsize", "zlib_badtype"},
+             inseg |-> <<Bit(geo(dlen)), Bit(geo(obj.n))>>,
+             twin |-> IF obj.kind = "zlib_twin" THEN Payload2(obj.n) ELSE <<>>,
              segdata |-> im.secs[2].data, interp |-> SubSeq(InterpStr, 1, Len(InterpStr) - 1),
              \* where the stream a different compressor would write may be substituted: [file offset, length of the slot,
              \* offset/width of sh_size, of p_filesz]  (harness-side recompression at other zlib levels)
